@@ -29,12 +29,14 @@ def run_one(ob):
     odir = os.path.join(OUT, 'work', 'apa_%s_%d' % (name, os.getpid()))
     t0 = time.time()
     try:
-        p = subprocess.run(['apalache-mc', 'check'] + args + ['--out-dir=' + odir, os.path.join(SPEC, mod)],
+        env = dict(os.environ, JVM_ARGS=(os.environ.get('JVM_ARGS', '') + ' -Djava.io.tmpdir=' + core.ensure(odir + '_tmp')).strip())
+        p = subprocess.run(['apalache-mc', 'check'] + args + ['--out-dir=' + odir, os.path.join(SPEC, mod)], env=env,
                            cwd=core.ensure(os.path.join(OUT, 'work')), stdout=subprocess.PIPE, stderr=subprocess.STDOUT, timeout=900)
         out = p.stdout.decode('utf-8', 'replace')
     except subprocess.TimeoutExpired:
         out = 'TIMEOUT'
     shutil.rmtree(odir, ignore_errors=True)
+    shutil.rmtree(odir + '_tmp', ignore_errors=True)
     m = re.search(r'The outcome is: (\w+)', out)
     outcome = m.group(1) if m else 'Unknown'
     r = {'name': name, 'module': mod, 'cmd': 'apalache-mc check ' + ' '.join(args) + ' ' + mod, 'expected': expect, 'outcome': outcome,
